@@ -26,7 +26,7 @@ func H_C01_hist() {
 	var partial [vNVB]bool
 	ss.fm.writeMask = func(vbID uint16) bool { return !partial[vbID] }
 	for st := 0; st < K; st++ {
-		switch choose("op", 6) {
+		switch choose("op", 7) {
 		case 0:
 			cover("deliver-ack-now")
 			ss.deliverDoc(choose("vb", vNVB), choose("kind", vDocKinds()), true)
@@ -45,6 +45,26 @@ func H_C01_hist() {
 		case 4:
 			cover("control-event")
 			ss.deliverControl(choose("vb", vNVB), choose("ckind", vControlKinds()))
+		case 6:
+			// the consumer commits (explicit save) through the context of an event it may not have acknowledged
+			n := len(ss.fc.consumed)
+			assume(n > 0)
+			i := choose("commitidx", n)
+			cover("commit-via-context")
+			var nset [vNVB]int
+			for vb := 0; vb < vNVB; vb++ {
+				nset[vb] = len(ss.settled[vb])
+			}
+			before := len(ss.fm.calls)
+			ss.fc.consumed[i].Commit()
+			if len(ss.fm.calls) > before {
+				call := ss.fm.calls[len(ss.fm.calls)-1]
+				for vb := 0; vb < vNVB; vb++ {
+					if call.dirty[uint16(vb)] {
+						assert(ss.docSettled(vb, call.state[uint16(vb)], nset[vb]), "a commit stores only positions settled before it (committing is not acknowledging)")
+					}
+				}
+			}
 		case 5:
 			// a save: rejected, complete, or cut short after a subset of the per-vBucket writes
 			var nset [vNVB]int
